@@ -1,6 +1,6 @@
 """Registry of claimed checks (MANIFEST.json is generated from this by tools/mkmanifest.py)."""
 
-HOOK_COMMITS = ["3b247a2", "c8d7b64"]
+HOOK_COMMITS = ["3b247a2", "c8d7b64", "ee663fa"]
 
 _TB = ("Coq 8.16.1 kernel; no axioms (Print Assumptions: Closed under the global context); extraction via ExtrOcamlBasic only; "
        "the hand-written model is tied to /repo by the correspondence run (Rust harness + OCaml driver + Python comparison are trusted); ")
